@@ -50,12 +50,16 @@ Proof. unfold cancel_ptr_refresh. destruct (dget (sc_by_alias s) a); repeat spli
 Definition cancelled_for (s : sched) (a : text) (id : Z) : sched :=
   with_heap_alias_fresh s (cancel_id (sc_heap s) id) (ddel (sc_by_alias s) a) (sc_fresh s).
 
+(* the state reschedule_ptr_first_refresh returns in the no-churn case: the entry id re-timed, all else as in s *)
+Definition retimed_for (s : sched) (id ttl expire : Z) : sched :=
+  with_heap_alias_fresh s (retime_id (sc_heap s) id ttl expire) (sc_by_alias s) (sc_fresh s).
+
 Lemma resched_cases s a n created ttl :
   let refresh := created + 750 * ttl in
   let expire := created + 1000 * ttl in
   (exists cur, registered_query s a = Some cur /\
      - sc_delay s <= refresh - sq_when cur <= sc_delay s /\
-     reschedule_ptr_first_refresh s a n created ttl = s) \/
+     reschedule_ptr_first_refresh s a n created ttl = retimed_for s (sq_id cur) ttl expire) \/
   (exists cur, registered_query s a = Some cur /\
      ~ (- sc_delay s <= refresh - sq_when cur <= sc_delay s) /\
      reschedule_ptr_first_refresh s a n created ttl =
@@ -71,7 +75,7 @@ Proof.
   destruct (find_id_some _ _ _ Ef) as [_ Hid].
   destruct ((- sc_delay s <=? created + 750 * ttl - sq_when cur) &&
             (created + 750 * ttl - sq_when cur <=? sc_delay s)) eqn:Ec.
-  - left. exists cur. repeat split; try reflexivity; lia.
+  - left. exists cur. subst id. repeat split; try reflexivity; lia.
   - right. left. exists cur. split; [reflexivity|]. split; [lia|]. subst id. reflexivity.
 Qed.
 
@@ -158,11 +162,42 @@ Proof.
   unfold WF. sfields. apply WFh_cancel; assumption.
 Qed.
 
+Lemma WF_retimed_for s id ttl ex : WF s -> WF (retimed_for s id ttl ex).
+Proof. intro Hwf. unfold WF, retimed_for. sfields. apply WFh_retime. exact Hwf. Qed.
+
+(* re-timing keeps every entry live or not as it was, with its time *)
+Lemma live_retimed_for s id ttl ex x :
+  live (retimed_for s id ttl ex) x <-> exists y, live s y /\ x = retimed id ttl ex y.
+Proof.
+  unfold live, retimed_for. sfields. rewrite retime_id_in. split.
+  - intros [[y [Hy E]] Hc]. exists y. subst x.
+    destruct (retimed_fields id ttl ex y) as (_ & _ & _ & Fc & _). rewrite Fc in Hc. auto.
+  - intros [y [[Hy Hc] E]]. subst x.
+    destruct (retimed_fields id ttl ex y) as (_ & _ & _ & Fc & _). rewrite Fc. split; [exists y; auto|exact Hc].
+Qed.
+
+Lemma live_retimed_for_other s a cur ttl ex x :
+  WF s -> registered_query s a = Some cur -> live s x -> sq_alias x <> a ->
+  live (retimed_for s (sq_id cur) ttl ex) x.
+Proof.
+  intros Hwf Hr [Hin Hc] Hne. apply (registered_query_live _ _ _ Hwf) in Hr as [[Hcin _] Ha].
+  apply live_retimed_for. exists x. split; [split; assumption|].
+  rewrite retimed_other; [reflexivity|]. intro E. destruct Hwf as (Hids & _).
+  assert (x = cur) by (apply (nodup_id_inj (sc_heap s)); assumption). subst x. congruence.
+Qed.
+
+Lemma registered_query_retimed_for s id ttl ex b :
+  registered_query (retimed_for s id ttl ex) b = option_map (retimed id ttl ex) (registered_query s b).
+Proof.
+  unfold registered_query, retimed_for. sfields.
+  destruct (dget (sc_by_alias s) b) as [id'|]; [apply find_id_retime|reflexivity].
+Qed.
+
 Lemma WF_resched s a n created ttl : WF s -> WF (reschedule_ptr_first_refresh s a n created ttl).
 Proof.
   intro Hwf.
   destruct (resched_cases s a n created ttl) as [[cur [_ [_ E]]]|[[cur [Hr [_ E]]]|[Hr E]]]; rewrite E.
-  - exact Hwf.
+  - apply WF_retimed_for. exact Hwf.
   - destruct (WF_cancelled_for _ _ _ Hwf Hr) as [H1 H2]. apply WF_push; assumption.
   - apply WF_push; [exact Hwf|]. apply registered_query_none; assumption.
 Qed.
@@ -213,8 +248,8 @@ Lemma live_resched_other s a n created ttl x :
   WF s -> live s x -> sq_alias x <> a -> live (reschedule_ptr_first_refresh s a n created ttl) x.
 Proof.
   intros Hwf Hl Hne.
-  destruct (resched_cases s a n created ttl) as [[cur [_ [_ E]]]|[[cur [Hr [_ E]]]|[Hr E]]]; rewrite E.
-  - exact Hl.
+  destruct (resched_cases s a n created ttl) as [[cur [Hr [_ E]]]|[[cur [Hr [_ E]]]|[Hr E]]]; rewrite E.
+  - apply live_retimed_for_other with (a := a); assumption.
   - apply live_push. left. apply live_cancelled_for_other; assumption.
   - apply live_push. left. exact Hl.
 Qed.
@@ -248,6 +283,14 @@ Proof.
   intros x Hl. apply Hx. eapply live_cancelled_for. exact Hl.
 Qed.
 
+Lemma post_startup_retimed_for s id ttl ex : post_startup s -> post_startup (retimed_for s id ttl ex).
+Proof.
+  intros (Hd & Hm & d & Hn & Hmd & Hx). unfold post_startup.
+  split; [exact Hd|]. split; [exact Hm|]. exists d. split; [exact Hn|]. split; [exact Hmd|].
+  intros x Hl. apply live_retimed_for in Hl as [y [Hy ->]].
+  destruct (retimed_fields id ttl ex y) as (_ & _ & _ & _ & Fw). rewrite Fw. apply Hx. exact Hy.
+Qed.
+
 Lemma post_startup_cancel s a : post_startup s -> post_startup (cancel_ptr_refresh s a).
 Proof.
   intro H. unfold cancel_ptr_refresh.
@@ -260,7 +303,7 @@ Lemma post_startup_resched s a n created ttl :
 Proof.
   intro H.
   destruct (resched_cases s a n created ttl) as [[cur [_ [_ E]]]|[[cur [Hr [_ E]]]|[Hr E]]]; rewrite E.
-  - exact H.
+  - apply post_startup_retimed_for. exact H.
   - apply post_startup_push. apply post_startup_cancelled_for. exact H.
   - apply post_startup_push. exact H.
 Qed.
